@@ -87,6 +87,29 @@ pub fn crashes(ctx : &Ctx, out : &mut Out)
         snaps.push((inv.after.clone(), "end".to_string()));
         out.count(&format!("killed:{}", match op { Op::Build(_) => "build", _ => "clean" }));
 
+        // R-crash: the disk at every action boundary of the implementation (every snapshot except those taken in the
+        // middle of a `gen` line, half-written `.partial` state files ignored, equal neighbours merged) must be, in
+        // order, exactly the crash states of the model: the disk after every prefix of Acts.build_acts / clean_acts
+        {
+            let mut states : Vec<String> = vec![];
+            for (disk, what) in snaps.iter()
+            {
+                if what.starts_with("cmd-write") { continue; }
+                let mut d = disk.clone();
+                let partial : Vec<String> = d.files.keys().filter(|p| in_ruler_dir(p) && p.ends_with(".partial")).cloned().collect();
+                for p in partial { d.files.remove(&p); }
+                let mut v = vec!["st".to_string()];
+                v.extend(world::show_disk(&d));
+                let st = crate::sexp::paren(&v);
+                if states.last() != Some(&st) { states.push(st); }
+            }
+            let mut all : Vec<Op> = prep.clone();
+            all.push(op.clone());
+            out.count(&format!("crash-states:{}", std::cmp::min(states.len(), 40) / 5 * 5));
+            out.case(world::show_history_case(false, 1_000_000, &all).replacen("(history ", "(crash ", 1),
+                     crate::sexp::paren(&["crash".to_string(), crate::sexp::list(states)]), true);
+        }
+
         for (k, (disk, what)) in snaps.iter().enumerate()
         {
             total_snapshots += 1;
